@@ -450,6 +450,37 @@ def mon_c15(tr):
     return out
 
 
+def mon_c10(tr):
+    """a non-leader never grants, queues or releases anything in answer to a client (requests without the from-AOF
+    flag): STATE_ERROR (or the concurrent-check TIMEOUT) and nothing changes; it does not end a replicated hold on
+    its own clock before deadline + 300 s."""
+    out = []
+    leader = True
+    keysig = lambda s: {k: ([(h["req"], h["depth"]) for h in live_holders(v)], [w["req"] for w in live_waiters(v)], v["locked"], v["data"].split("/")[0]) for k, v in s["keys"].items()}
+    for i, st in enumerate(tr.steps):
+        f = st["line"].split()
+        if f[0] == "role":
+            leader = f[1] == "1"
+            continue
+        rq = st["req"]
+        if not leader and st["after"]:
+            if rq and not rq["flag"] & 4:
+                mine = [rp for rp in st["replies"] if rp["req"] == rq["req"]]
+                ok_pre = rq["islock"] and rq["flag"] & 8 and rq["timeout"] == 0
+                if not mine or not (mine[0]["result"] == R["STATE"] or (mine[0]["result"] == R["UNLOCK"] and rq["key"] not in st["before"]["keys"]) or (ok_pre and mine[0]["result"] == R["TIMEOUT"])):
+                    out.append(("role:non-leader-answered-client-request", "non-leader answered request %d with %s" % (rq["req"], mine[0]["result"] if mine else "nothing"), i))
+                if len(st["replies"]) > 1 or keysig(st["before"]) != keysig(st["after"]):
+                    out.append(("role:non-leader-changed-state-for-client", "request %d on a non-leader changed holds/queues/values or produced other replies" % rq["req"], i))
+            for rp in st["replies"]:
+                if rp["result"] == R["EXPRIED"]:
+                    g = tr.reqs.get(rp["req"])
+                    kb = st["before"]["keys"].get(g["key"]) if g else None
+                    h = [h for h in (live_holders(kb) if kb else []) if h["req"] == rp["req"]]
+                    if h and h[0]["isaof"]:
+                        out.append(("role:follower-expired-replicated-hold", "a non-leader ended the replicated hold of request %d on its own clock" % rp["req"], i))
+    return out
+
+
 def mon_panic(tr):
     out = []
     for i, st in enumerate(tr.steps):
@@ -458,4 +489,4 @@ def mon_panic(tr):
     return out
 
 
-MONITORS = dict(C15=mon_c15, C01=mon_c01, C02=mon_c02, C03=mon_c03, C04=mon_c04, C05=mon_c05, C06=mon_c06, C17=mon_c17, PANIC=mon_panic)
+MONITORS = dict(C10=mon_c10, C15=mon_c15, C01=mon_c01, C02=mon_c02, C03=mon_c03, C04=mon_c04, C05=mon_c05, C06=mon_c06, C17=mon_c17, PANIC=mon_panic)
